@@ -32,7 +32,12 @@ from .exceptions import (
     CommentParseError,
     MissingReuseInfoError,
 )
-from .extract import contains_reuse_info, extract_reuse_info
+from .extract import (
+    REUSE_IGNORE_END,
+    REUSE_IGNORE_START,
+    contains_reuse_info,
+    extract_reuse_info,
+)
 from .i18n import _
 
 _LOGGER = logging.getLogger(__name__)
@@ -212,6 +217,15 @@ def _find_first_spdx_comment(
         except CommentParseError:
             continue
         if contains_reuse_info(comment):
+            # A comment that sits inside an ignore block which started further
+            # up is not a header: whatever replaces it would be ignored too.
+            before = text[:index]
+            ignore_start = before.rfind(REUSE_IGNORE_START)
+            if (
+                ignore_start != -1
+                and REUSE_IGNORE_END not in before[ignore_start:]
+            ):
+                continue
             return _TextSections(
                 text[:index], comment + "\n", text[index + len(comment) + 1 :]
             )
